@@ -144,29 +144,43 @@ def run_check(prop, tier, seed):
     if not ok:
         return fail_tie(prop, tier, seed, t0, "harness does not build against /repo's working tree "
                         "(hook surface or API changed)", log, cov)
-    # ---- 3. cases
-    rng = vlib.Rng(seed * 1000003 + int(prop.id[1:]))
-    n = prop.counts[tier]
-    cases = prop.corpus() + prop.gen(rng, n, tier)
+    # ---- 3. cases (a property may be served by several case families = parts)
+    parts = prop.parts() if hasattr(prop, "parts") else [prop]
+    cases, obs, owner, bad_agree, bad_spec = [], [], [], [], []
     try:
-        obs, bad_agree, bad_spec = evaluate(prop, cases, "%s_%s" % (prop.id, tier))
+        for k, part in enumerate(parts):
+            rng = vlib.Rng(seed * 1000003 + int(prop.id[1:]) + 7919 * k)
+            n = part.counts[tier]
+            pc = part.corpus() + part.gen(rng, n, tier)
+            po, pa, ps = evaluate(part, pc, "%s_%s_%d" % (prop.id, tier, k))
+            off = len(cases)
+            cases += pc
+            obs += po
+            owner += [part] * len(pc)
+            bad_agree += [off + i for i in pa]
+            bad_spec += [off + i for i in ps]
     except RuntimeError as e:
         return fail_tie(prop, tier, seed, t0, "correspondence run failed", str(e), cov)
     keys = set()
     nontriv = 0
-    for c, o in zip(cases, obs):
-        k = prop.key(c)
+    for c, o, part in zip(cases, obs, owner):
+        k = (part.harness, part.key(c))
         if k in keys:
             continue
         keys.add(k)
-        if o is not None and prop.nontrivial(c, o):
+        if o is not None and part.nontrivial(c, o):
             nontriv += 1
     cov["evaluations"] = len(cases)
     cov["distinct_nontrivial"] = nontriv
-    cov["rule"] = prop.rule
-    cov["samples"] = [prop.describe(c, o) for c, o in list(zip(cases, obs))[:3]]
+    cov["rule"] = " || ".join(part.rule for part in parts)
+    cov["samples"] = []
+    for part in parts:
+        idxs = [i for i, pw in enumerate(owner) if pw is part][:2]
+        cov["samples"] += [part.describe(cases[i], obs[i]) for i in idxs]
     cov["traces_validated_against_impl"] = len(cases)
-    cov["distribution"] = prop.stats(cases, obs)
+    cov["distribution"] = {part.harness + ":" + part.spec_fn: part.stats([c for c, pw in zip(cases, owner) if pw is part],
+                                                                  [o for o, pw in zip(obs, owner) if pw is part])
+                           for part in parts}
     cov["obligations"] = n_obl
     if prop.partial_note:
         cov["partial"] = prop.partial_note
@@ -182,7 +196,7 @@ def run_check(prop, tier, seed):
         unknown_spec = []
         known_hits = {}
         for i in bad_spec:
-            cls = prop.classify(cases[i], obs[i]) if hasattr(prop, "classify") else None
+            cls = owner[i].classify(cases[i], obs[i]) if hasattr(owner[i], "classify") else None
             if cls is not None and cls in known:
                 known_hits.setdefault(cls, i)
             else:
@@ -193,15 +207,17 @@ def run_check(prop, tier, seed):
         if unknown_spec:
             i = unknown_spec[0]
 
+            part = owner[i]
+
             def still_fails(c):
-                o, ba, bs = evaluate(prop, [c], "%s_shrink" % prop.id)
+                o, ba, bs = evaluate(part, [c], "%s_shrink" % prop.id)
                 return bool(bs)
-            small = shrink(prop, cases[i], still_fails)
-            o_small = vlib.run_harness(prop.harness, [prop.line(small)], "%s_shrink" % prop.id,
-                                       per_process=prop.per_process)[0]
-            payload = {"property": prop.id, "kind": "spec-violated-on-implementation-trace",
-                       "seed": seed, "case": prop.describe(small, o_small), "case_obj": small,
-                       "original_case": prop.describe(cases[i], obs[i]),
+            small = shrink(part, cases[i], still_fails)
+            o_small = vlib.run_harness(part.harness, [part.line(small)], "%s_shrink" % prop.id,
+                                       per_process=part.per_process)[0]
+            payload = {"property": prop.id, "kind": "spec-violated-on-implementation-trace", "family": part.harness,
+                       "seed": seed, "case": part.describe(small, o_small), "case_obj": small,
+                       "original_case": part.describe(cases[i], obs[i]),
                        "how_to_replay": "./check %s --replay <this file>" % prop.id,
                        "count": len(unknown_spec)}
             path = vlib.write_replay(prop.id, seed, "spec", payload)
@@ -214,23 +230,25 @@ def run_check(prop, tier, seed):
         # (or is not constraining): the tie is broken, no failing input known.
         unknown_agree = []
         for i in only_agree:
-            cls = prop.classify(cases[i], obs[i]) if hasattr(prop, "classify") else None
+            cls = owner[i].classify(cases[i], obs[i]) if hasattr(owner[i], "classify") else None
             if not (cls is not None and cls in known):
                 unknown_agree.append(i)
         if unknown_agree and not reported:
             i = unknown_agree[0]
 
+            part = owner[i]
+
             def still_differs(c):
-                o, ba, bs = evaluate(prop, [c], "%s_shrink" % prop.id)
+                o, ba, bs = evaluate(part, [c], "%s_shrink" % prop.id)
                 return bool(ba)
-            small = shrink(prop, cases[i], still_differs)
-            o_small = vlib.run_harness(prop.harness, [prop.line(small)], "%s_shrink" % prop.id,
-                                       per_process=prop.per_process)[0]
-            payload = {"property": prop.id, "kind": "model-implementation-disagreement",
+            small = shrink(part, cases[i], still_differs)
+            o_small = vlib.run_harness(part.harness, [part.line(small)], "%s_shrink" % prop.id,
+                                       per_process=part.per_process)[0]
+            payload = {"property": prop.id, "kind": "model-implementation-disagreement", "family": part.harness,
                        "what": "correspondence %s (Run entry %s) no longer holds: the model and the "
                                "implementation differ on this case; no input falsifying the property's "
-                               "Spec predicate was found among %d cases" % (prop.id, prop.agree_fn, len(cases)),
-                       "seed": seed, "case": prop.describe(small, o_small), "case_obj": small,
+                               "Spec predicate was found among %d cases" % (prop.id, part.agree_fn, len(cases)),
+                       "seed": seed, "case": part.describe(small, o_small), "case_obj": small,
                        "count": len(unknown_agree)}
             path = vlib.write_replay(prop.id, seed, "corr", payload)
             print("VIOLATION property=%s replay=%s no-failing-input-found" % (prop.id, path))
@@ -260,7 +278,10 @@ def run_replay(prop, path):
     if not ok:
         print(log[-2000:])
         return 1
-    obs, ba, bs = evaluate(prop, [case], "%s_replay" % prop.id)
-    print(json.dumps(prop.describe(case, obs[0])))
+    parts = prop.parts() if hasattr(prop, "parts") else [prop]
+    fam = payload.get("family")
+    part = next((p for p in parts if p.harness == fam), parts[0])
+    obs, ba, bs = evaluate(part, [case], "%s_replay" % prop.id)
+    print(json.dumps(part.describe(case, obs[0])))
     print("model==impl: %s ; spec holds on impl trace: %s" % (not ba, not bs))
     return 1 if (ba or bs) else 0
